@@ -81,7 +81,7 @@ def run_overlay(repo, files, run_pattern, pkg_dir=".", timeout=120, race=False):
             json.dump({"Replace": replace}, f)
         env = dict(os.environ)
         env.update({"GOFLAGS": "", "GOWORK": os.path.join(d, "go.work"), "GOPROXY": "off", "GOSUMDB": "off", "GOTOOLCHAIN": "local"})
-        cmd = ["go", "test", "-overlay", ov, "-vet=off", "-count=1", "-v", "-timeout", "%ds" % timeout, "-run", run_pattern]
+        cmd = ["go", "test", "-trimpath", "-overlay", ov, "-vet=off", "-count=1", "-v", "-timeout", "%ds" % timeout, "-run", run_pattern]
         if race:
             cmd.append("-race")
         cmd.append(".")
